@@ -104,7 +104,7 @@ func H_C16_demorgan() {
 	nd.Reach("end")
 }
 
-//verif:harness props=C16 tier=thorough split=16 bounds="every Not/And/Or tree of depth <= 3 over MatchFunc leaves with symbolic outcomes"
+//verif:harness props=C16 tier=thorough bounds="every Not/And/Or tree of depth <= 3 over MatchFunc leaves with symbolic outcomes"
 func H_C16_connectives3() {
 	t := genBool("t", 3)
 	doc := d.NewDocument()
@@ -165,7 +165,7 @@ func genLeaf(name string, o ref.Opts, refs bool) *ref.Crit {
 	return c
 }
 
-//verif:harness props=C16 tier=quick split=16 bounds="each leaf operator (Exists,NotExists,Eq,Neq,Gt,GtEq,Lt,LtEq,In<=2,Contains<=2,Like) on field x absent or nil/int(boundary set)/float64/string<=1/bool/array<=1; literal of the same kinds; compared with the documented semantics"
+//verif:harness props=C16 tier=quick bounds="each leaf operator (Exists,NotExists,Eq,Neq,Gt,GtEq,Lt,LtEq,In<=2,Contains<=2,Like) on field x absent or nil/int(boundary set)/float64/string<=1/bool/array<=1; literal of the same kinds; compared with the documented semantics"
 func H_C16_leaf_vs_ref() {
 	oLike := c16Val
 	t := genLeaf("c", c16Val, false)
@@ -190,7 +190,7 @@ func H_C16_leaf_vs_ref() {
 
 var c16Small = ref.Opts{Kinds: ref.KNil | ref.KFloat | ref.KString | ref.KBool, MaxStr: 1}
 
-//verif:harness props=C16 tier=quick split=16 bounds="field-reference operands (Field(y) and \"$y\", also inside In/Contains lists) with y absent or nil/float64/string<=1/bool; x likewise (arrays <=1 for Contains)"
+//verif:harness props=C16 tier=quick bounds="field-reference operands (Field(y) and \"$y\", also inside In/Contains lists) with y absent or nil/float64/string<=1/bool; x likewise (arrays <=1 for Contains)"
 func H_C16_fieldref() {
 	o := c16Small
 	t := genLeaf("c", o, true)
